@@ -56,3 +56,5 @@
         assert!(d.inner.pos == if used < 4 { used } else { 4 });
         crate::vcover!(count == 4 && used >= 2);
     }
+
+    pub(crate) fn mk_decoder<R>(inner: R, range: u32, code: u32) -> RangeDecoder<R> { RangeDecoder { inner, range, code } }
